@@ -33,9 +33,21 @@ def _results(case):
 	idx = [rnd.randrange(len(qs)) for _ in range(case['n'])]
 	labels = [rnd.choice(case.get('strings', HOSTILE)) + f'#{j}' for j in range(len(idx))]
 	inputs = [QueryInput(l, SequenceFile(f'/some/dir/{j}.fasta', 'fasta') if rnd.random() < .5 else None) for j, l in enumerate(labels)]
-	res = query(db, [qs[i] for i in idx], QueryParams(classify_strict=case.get('strict', False), report_closest=rnd.choice([1, 3, 10])), inputs=inputs)
+	sigs_in = [qs[i] for i in idx]
+	if case.get('zero') and sigs_in:
+		# a query that IS a reference genome: closest distance exactly 0.0 (a falsy value that must still be written)
+		sigs_in[0] = db.signatures[rnd.randrange(len(db.signatures))]
+	res = query(db, sigs_in, QueryParams(classify_strict=case.get('strict', False), report_closest=rnd.choice([1, 3, 10])), inputs=inputs)
 	# hostile names on the ORM objects (in memory only: the session is read-only)
 	changed = []
+	if case.get('zero'):
+		for item in res.items[:1]:
+			for t in (item.report_taxon, item.classifier_result.next_taxon):
+				if t is not None:
+					changed.append((t, 'ncbi_id', t.ncbi_id))
+					changed.append((t, 'distance_threshold', t.distance_threshold))
+					t.ncbi_id = 0                      # falsy but present values
+					t.distance_threshold = 0.0
 	if case.get('rename'):
 		for item in res.items:
 			for t in (item.report_taxon, item.classifier_result.next_taxon):
@@ -190,7 +202,7 @@ def bounded(tier, seed):
 	cases = []
 	for _ in range(20 if tier == 'quick' else 300):
 		cases.append({'fmt': rnd.choice(['csv', 'csv', 'json', 'archive']), 'seed': rnd.randrange(10 ** 6), 'n': rnd.choice([1, 2, 5]),
-		              'strict': rnd.random() < .4, 'rename': rnd.random() < .7, 'unreport': rnd.random() < .3})
+		              'strict': rnd.random() < .4, 'rename': rnd.random() < .7, 'unreport': rnd.random() < .3, 'zero': rnd.random() < .5})
 	for order in ([1, 2], [2, 1], [1, 2, 1]):
 		cases.append({'fmt': 'json-reuse', 'seed': rnd.randrange(10 ** 6), 'n': 3, 'order': order})
 	# the carriage-return class separately (known finding)
